@@ -30,7 +30,7 @@ MC_THOROUGH = ["Annotate_mc_commit_t.cfg", "Annotate_mc_commit22_t.cfg", "Annota
                "Annotate_mc_stamp2_t.cfg", "Annotate_mc_filter_t.cfg", "Annotate_mc_mixed_t.cfg", "Annotate_mc_mixed2_t.cfg",
                "Annotate_mc_commit_q.cfg", "Annotate_mc_live_t.cfg"]
 # (generation cfg, option records per history: None = all)
-GEN_QUICK = [("OsmHistory_gen_commit_q.cfg", 1), ("OsmHistory_gen_stamp_q.cfg", 3), ("OsmHistory_gen_filter_q.cfg", 3),
+GEN_QUICK = [("OsmHistory_gen_commit_q.cfg", 1), ("OsmHistory_gen_stamp_q.cfg", 2), ("OsmHistory_gen_stamp2_q.cfg", 1), ("OsmHistory_gen_filter_q.cfg", 3),
              ("OsmHistory_gen_any_q.cfg", 1), ("OsmHistory_gen_mixed_q.cfg", 1)]
 GEN_THOROUGH = [("OsmHistory_gen_commit_t.cfg", 1), ("OsmHistory_gen_commit3_t.cfg", 1), ("OsmHistory_gen_stamp_t.cfg", 3),
                 ("OsmHistory_gen_stamp2_t.cfg", 2), ("OsmHistory_gen_filter_t.cfg", 6), ("OsmHistory_gen_any_t.cfg", 2),
@@ -84,7 +84,9 @@ def layout(rng, h, o, runs, kind=None):
                idbase=str(rng.choice([0, 1000, 2 ** 31, 2 ** 39])), csbase=str(rng.choice([0, 5000, 2 ** 33])),
                shuffle=rng.randrange(1 << 30), runs=runs, optall=optall, nothr=nothr,
                sameid=(kind == "rel" and len(set(kt)) == nk and rng.random() < 0.5),
-               late=(o["regime"] == "stamp" and rng.random() < 0.5))
+               late=(o["regime"] == "stamp" and rng.random() < 0.5),
+               # half of the cases hold their time.Time values in varying locations (same instants)
+               zones=(rng.randrange(1, 1 << 30) if rng.random() < 0.5 else 0))
     # per child: the version whose location is exactly (0, 0) (0 = none); moving to and away from the origin
     zv = [rng.choice([0, 0, 1, 2, 3]) for _ in range(nk)]
     return kt, zv, lay
